@@ -680,6 +680,108 @@ def translate(unix_src, ipc_src):
             raise Untranslatable("sentinel: ser=%r deser=%r" % (ser, deser))
         return "Definition EMPTY_REGION_SENTINEL : Z := U.max."
     attempt("EMPTY_REGION_SENTINEL", sentinel)
+
+    # the conversions of the back end's error into what the receive calls report (impl From<UnixError> for ipc::TryRecvError / ipc::IpcError):
+    # classes 0 = 'empty', 1 = 'disconnected', 2 = I/O error; one function of the errno and one constant for ChannelClosed each
+    ERRNO = {"EAGAIN": 11, "EWOULDBLOCK": 11, "EINTR": 4, "ENOBUFS": 105, "ECONNRESET": 104, "EPIPE": 32, "EBADF": 9, "ETIMEDOUT": 110,
+             "EINVAL": 22, "ENOMEM": 12, "ENOTCONN": 107, "EMSGSIZE": 90}
+
+    def errmap(defname, target):
+        def go():
+            vals = [t[1] for t in toks]
+            hdr = ["From", "<", "UnixError", ">", "for", "ipc", "::", target]
+            at = next((i for i in range(len(vals) - len(hdr)) if vals[i:i + len(hdr)] == hdr), None)
+            if at is None:
+                raise Untranslatable("impl From<UnixError> for ipc::%s not found" % target)
+            m = vals.index("match", at)
+            o = vals.index("{", m)
+            depth, k = 0, o
+            while True:
+                if vals[k] in "{([":
+                    depth += 1
+                elif vals[k] in "})]":
+                    depth -= 1
+                    if depth == 0:
+                        break
+                k += 1
+            body = toks[o + 1:k]
+            bv = [t[1] for t in body]
+            arms, i = [], 0
+            while i < len(bv):
+                j, d = i, 0
+                while not (bv[j] == "=>" and d == 0):
+                    d += bv[j] in "{([" and 1 or 0
+                    d -= bv[j] in "})]" and 1 or 0
+                    j += 1
+                pat = body[i:j]
+                j += 1
+                if bv[j] == "{":
+                    d, e = 0, j
+                    while True:
+                        d += bv[e] == "{" and 1 or 0
+                        d -= bv[e] == "}" and 1 or 0
+                        if d == 0:
+                            break
+                        e += 1
+                    arm_body, nxt = bv[j:e + 1], e + 1
+                else:
+                    d, e = 0, j
+                    while e < len(bv) and not (bv[e] == "," and d == 0):
+                        d += bv[e] in "{([" and 1 or 0
+                        d -= bv[e] in "})]" and 1 or 0
+                        e += 1
+                    arm_body, nxt = bv[j:e], e
+                if nxt < len(bv) and bv[nxt] == ",":
+                    nxt += 1
+                arms.append((pat, arm_body))
+                i = nxt
+
+            def cls(b):
+                if "Empty" in b:
+                    return 0
+                if "Disconnected" in b:
+                    return 1
+                if "Io" in b:
+                    return 2
+                raise Untranslatable("arm result %r" % b[:8])
+            closed, errno_branches, default = None, [], None
+            for pat, b in arms:
+                pv = [t[1] for t in pat]
+                if pv[:3] == ["UnixError", "::", "ChannelClosed"]:
+                    if closed is None:
+                        closed = cls(b)
+                elif pv[:3] == ["UnixError", "::", "Errno"]:
+                    var = pv[4]
+                    cond = "true"
+                    if "if" in pv:
+                        ct = pat[pv.index("if") + 1:]
+                        c = Parser(ct, {}).expr(nostruct=True)
+                        env = {var: "code"}
+                        env.update({n: str(v) for n, v in ERRNO.items()})
+                        cond, _ = Emit(consts, funcs, cfg).cond(c, env)
+                    errno_branches.append((cond, cls(b)))
+                    if cond == "true":
+                        break
+                elif pv[:3] == ["UnixError", "::", "IoError"]:
+                    continue
+                elif len(pv) == 1:
+                    default = cls(b)
+                    break
+                else:
+                    raise Untranslatable("pattern %r" % pv)
+            if closed is None:
+                closed = default
+            if closed is None or (default is None and not any(c == "true" for c, _ in errno_branches)):
+                raise Untranslatable("conversion to %s is not total" % target)
+            term = str(default) if default is not None else "2"
+            for cond, r in reversed(errno_branches):
+                term = "%d" % r if cond == "true" else "(if %s then %d else %s)" % (cond, r, term)
+            return ("Definition %s_closed : Z := %d.\nDefinition %s_errno (code : Z) : Z := %s." % (defname, closed, defname, term))
+        attempt(defname, go)
+
+    out.append(("ERRNO", "Definition EAGAIN : Z := 11.\nDefinition EINTR : Z := 4."))
+    errmap("try_recv_class", "TryRecvError")
+    errmap("recv_class", "IpcError")
     return out, summary
 
 
